@@ -1,18 +1,23 @@
 #!/bin/bash
-# seed_harvest.sh <PID> <worktree> <name> : store a seeded change under /verif/seeded/<name>, confirm the demo, run the check on it.
+# seed_harvest.sh <PID> <worktree> <name> : store a seeded change under /verif/seeded/<name>, confirm the demo on the unchanged tree and
+# on a scratch copy of /repo with the patch (outside /repo and /verif, removed afterwards), run the property's check on that copy.
 PID=$1; WT=$2; NAME=$3
 D=/verif/seeded/$NAME
 mkdir -p $D
 git -C $WT diff > $D/patch.diff
 cp $WT/seeded_demo.py $D/demo.py
 cp $WT/seeded_meta.json $D/agent_meta.json
-cd /repo
-git diff --quiet || { echo "/repo dirty"; exit 2; }
+git -C /repo diff --quiet || { echo "/repo dirty"; exit 2; }
 JAX_PLATFORMS=cpu /venv/bin/python $D/demo.py > $D/.demo_clean.log 2>&1; CLEAN=$?
-git apply $D/patch.diff || { echo "patch does not apply"; exit 2; }
-JAX_PLATFORMS=cpu /venv/bin/python $D/demo.py > $D/.demo_seeded.log 2>&1; SEEDED=$?
-(cd /verif && ./check $PID --tier quick > $D/.check.log 2>&1); CHK=$?
-git checkout -- .
+S=/var/tmp/sh_$NAME; O=/var/tmp/sho_$NAME
+rm -rf $S $O; mkdir -p $S $O
+rsync -a --exclude .git --exclude tests /repo/ $S/
+(cd $S && patch -p1 -s < $D/patch.diff) || { echo "patch does not apply"; rm -rf $S $O; exit 2; }
+JAX_PLATFORMS=cpu PYTHONPATH=$S /venv/bin/python $D/demo.py > $D/.demo_seeded.log 2>&1; SEEDED=$?
+(cd /verif && VERIF_REPO=$S VERIF_OUT=$O ./check $PID --tier quick > $D/.check.log 2>&1); CHK=$?
+sed -i "s#$O/#/verif/#g" $D/.check.log
+rm -rf $S $O
 echo "demo clean exit=$CLEAN seeded exit=$SEEDED check exit=$CHK"
-grep -E "^\[|VIOLATION|KNOWN|BROKEN|UNDECIDED" $D/.check.log | cut -c1-220
+grep -E "^\[|VIOLATION|KNOWN|BROKEN|UNDECIDED" $D/.check.log | cut -c1-220 | head -12
 tail -2 $D/.demo_seeded.log | cut -c1-300
+python3 /verif/tools/seed_meta.py $NAME $PID > /dev/null
